@@ -229,6 +229,16 @@ impl Ctx {
             Err(e) => Err(Verdict::Violation { sig: "no-quiescence".into(), detail: format!("the server never became quiescent: {}", e) }),
         }
     }
+    /// Runs at most `n` further scheduler steps (fewer if the system goes quiescent first).
+    pub async fn run_steps(&self, n: u32) -> Result<(), Verdict> {
+        let total = |s: &Shared| s.tasks.iter().map(|t| t.polls).sum::<u32>();
+        let target = total(&self.sh.lock().unwrap()) + n;
+        let stop = move |s: &Shared| s.tasks.iter().map(|t| t.polls).sum::<u32>() >= target;
+        match run_until(&self.sh, self.max_steps, &stop).await {
+            Ok(_) => Ok(()),
+            Err(e) => Err(Verdict::Violation { sig: "no-quiescence".into(), detail: format!("the server never became quiescent: {}", e) }),
+        }
+    }
     /// Runs `fut` as a client task to completion under the default schedule (choices frozen).
     pub async fn settle<T: Send + 'static>(&self, label: &str, fut: impl Future<Output = T> + Send + 'static) -> Result<T, Verdict> {
         let was = self.freeze(true);
